@@ -360,7 +360,7 @@ const maxSteps = 600
 // runHistory drives progs; if sched is nil a schedule is chosen with r according to mode
 // ("seq": each op runs until it completes or blocks; "conc": random thread at every step;
 // thread 0 is the set-up thread and is run to completion first in both modes).
-func runHistory(t *testing.T, progs [][]op, sched []int, mode string, r *Rand) (obs string, used []int) {
+func runHistory(t *testing.T, progs [][]op, sched []int, mode string, r *Rand, hobs *string, hused *[]int) (obs string, used []int) {
 	w := &world{byGoid: map[int64]*thr{}, cs: map[int]*capnp.Client{}, ws: map[int]*capnp.WeakClient{}, ps: map[int]*capnp.ClientPromise{}}
 	var masks, rs, hs []string
 	status := "done"
@@ -434,21 +434,17 @@ func runHistory(t *testing.T, progs [][]op, sched []int, mode string, r *Rand) (
 			}
 			hs = append(hs, fmt.Sprintf("%d.%d.%d.%d", refs, calls, d, shut))
 		}
-		// let parked goroutines go (those blocked inside the library stay; see below)
-		for _, th := range w.threads {
-			w.lk.Lock()
-			st := th.status
-			w.lk.Unlock()
-			if st == stIdle || st == stAtLock || st == stInCall || st == stAtShutdown {
-				curWorld = nil
-				select {
-				case th.grant <- false:
-				default:
-				}
-			}
+		// Parked goroutines (a stuck or cut history) are left where they are: resuming or
+		// Goexit-ing them inside the library could unlock unlocked mutexes.  synctest then
+		// reports "blocked goroutines remain" by a panic, which the caller recovers; the
+		// observation has been computed already.
+		obs = fmt.Sprintf("%s E:%s R:%s H:%s M:%s", status, strings.Join(w.events, ","), strings.Join(rs, ";"), strings.Join(hs, ","), strings.Join(masks, "."))
+		if hobs != nil {
+			*hobs = obs
+			*hused = used
 		}
+		curWorld = nil
 	})
-	obs = fmt.Sprintf("%s E:%s R:%s H:%s M:%s", status, strings.Join(w.events, ","), strings.Join(rs, ";"), strings.Join(hs, ","), strings.Join(masks, "."))
 	return obs, used
 }
 
@@ -611,7 +607,7 @@ func sortedKeys(m map[int]int) []int {
 	return ks
 }
 
-func genHistory(r *Rand, mode string) [][]op {
+func genHistory(r *Rand, mode string) ([][]op, bool) {
 	g := &gen{r: r, root: map[int]int{}, wroot: map[int]int{}, wowner: map[int]int{}, relBy: map[int]int{}, fsrcBy: map[int]map[int]bool{}}
 	g.allowMis = r.Intn(25) == 0
 	var setup []op
@@ -669,7 +665,7 @@ func genHistory(r *Rand, mode string) [][]op {
 		lens[th-1]--
 		total--
 	}
-	return progs
+	return progs, g.allowMis
 }
 
 // genDirected: a promise with 1-2 clients is fulfilled with a client of a plain capability
@@ -737,19 +733,25 @@ func run(out *Out, r *Rand, tier string, replay []string) {
 	}
 	tests := []testing.InternalTest{{Name: "C10", F: func(t *testing.T) {
 		capnp.VerifYieldHook = yieldHook
-		runOne := func(kind string, progs [][]op, sched []int) {
+		runOne := func(kind, mode string, progs [][]op, sched []int) {
 			type result struct {
 				obs  string
 				used []int
 			}
 			ch := make(chan result, 1)
 			go func() {
+				var sobs string
+				var sused []int
 				defer func() {
 					if e := recover(); e != nil {
-						ch <- result{obs: fmt.Sprintf("harness-panic %v", e)}
+						if sobs != "" {
+							ch <- result{sobs, sused} // leftover parked goroutines
+						} else {
+							ch <- result{obs: fmt.Sprintf("harness-panic %v", e)}
+						}
 					}
 				}()
-				o, u := runHistory(t, progs, sched, kind, r)
+				o, u := runHistory(t, progs, sched, mode, r, &sobs, &sused)
 				ch <- result{o, u}
 			}()
 			var res result
@@ -782,7 +784,7 @@ func run(out *Out, r *Rand, tier string, replay []string) {
 				} else {
 					sched = []int{}
 				}
-				runOne(f[0], parseProgs(f[2]), sched)
+				runOne(f[0], "conc", parseProgs(f[2]), sched)
 			}
 		} else {
 			n := 1500
@@ -795,10 +797,15 @@ func run(out *Out, r *Rand, tier string, replay []string) {
 					mode = "seq"
 				}
 				if i%4 == 1 {
-					runOne(mode, genDirected(r), nil)
+					runOne(mode, mode, genDirected(r), nil)
 					continue
 				}
-				runOne(mode, genHistory(r, mode), nil)
+				progs, mis := genHistory(r, mode)
+				kind := mode
+				if mis {
+					kind = "mis"
+				}
+				runOne(kind, mode, progs, nil)
 			}
 		}
 		out.Close("non-trivial = the history delivers a call or shuts a capability down (event log non-empty)")
